@@ -147,7 +147,16 @@ def run(ctx):
         iv = "i"
         if xr and xr[0].loops:
             iv = xr[0].loops[0][0].strip("()").split(",")[0].strip()
-        ok = info is not None and info[1] == f"compute_cover_positions(len({cw}), 2 ** {iv})"
+        cover = info[1] if info is not None else None
+        if info is not None and info[2] is None and xr and any(v_ == info[1] for v_, _ in xr[0].loops):
+            # `for c in compute_cover_positions(...)`: the element is the loop variable itself, the set is the loop's iterable
+            it_txt = [it for v_, it in xr[0].loops if v_ == info[1]][-1]
+            try:
+                cover = norm(fx.expand(ast.parse(it_txt, mode="eval").body))
+            except SyntaxError:
+                cover = it_txt
+            cover = cover.replace("len(codeword)", f"len({cw})")
+        ok = info is not None and cover == f"compute_cover_positions(len({cw}), 2 ** {iv})"
         ctx.ob("H2", F, f"SECDED.compute_syndrome@{cls}", "cover set = compute_cover_positions(len(codeword), 2**i)", ok, "" if ok else f"{info}")
         sy = [a for a in fx.find(domain="comb") if a.t == f"syndrome[{iv}]"]
         ok = len(sy) == 1 and sy[0].v == "new_pn" and any(it in (f"enumerate(compute_syndrome_positions(len({cw})))",
